@@ -88,6 +88,7 @@ type c08LenField struct {
 	off, width int
 	kind       string // varint varlong byte ubyte short ushort int long be16 be32
 	unit       int    // bytes per counted element (0: variable)
+	per        int64  // bytes the UNCHANGED code allocates per counted element before reading them (0: nothing)
 }
 
 type c08Cur struct {
@@ -97,11 +98,37 @@ type c08Cur struct {
 	neg   bool  // a negative length prefix was met
 	elems int64 // largest declared element count
 	bytes int64 // largest declared byte count
-	lens  []c08LenField
-	steps int
+	alloc int64 // largest single allocation the unchanged code makes for a declared count (count x per)
+	// listPer: bytes the unchanged code allocates per declared element of an NBT LIST before reading it (it depends on
+	// the destination: 16 for []any, the struct size for a typed slice, 0 where elements are appended one by one)
+	listPer int64
+	lens    []c08LenField
+	steps   int
 }
 
-func newCur(in []byte) *c08Cur { return &c08Cur{in: in, ok: true} }
+func newCur(in []byte) *c08Cur { return &c08Cur{in: in, ok: true, listPer: 256} }
+
+// newCurList: a cursor for a decoder whose NBT lists cost `per` bytes per declared element
+func newCurList(in []byte, per int64) *c08Cur { return &c08Cur{in: in, ok: true, listPer: per} }
+
+// c08NbtListPer: see c08Cur.listPer; params as the nbt / registry entries write them ("any:…", "rawmsg:…"), "-" for chat
+func c08NbtListPer(params string) int64 {
+	key := params
+	if i := strings.IndexByte(params, ':'); i >= 0 {
+		key = params[:i]
+	}
+	switch key {
+	case "any", "map":
+		return 16
+	case "raw", "rawmsg", "0", "1", "2": // rawRead skips; dynbt.Value appends
+		return 0
+	case "heightmaps":
+		return 8
+	case "strict", "struct", "loose":
+		return 64
+	}
+	return 256
+}
 
 func (w *c08Cur) need(n int) bool {
 	if !w.ok || n < 0 || w.pos+n > len(w.in) {
@@ -186,7 +213,20 @@ func (w *c08Cur) length(kind string, unit int, bytesPer int64) int64 {
 	if !w.ok {
 		return 0
 	}
-	w.lens = append(w.lens, c08LenField{off, w.pos - off, kind, unit})
+	per := bytesPer
+	if per <= 1 && int64(unit) > per {
+		per = int64(unit) // NBT int / long arrays: counted in elements, allocated in bytes
+	}
+	w.lens = append(w.lens, c08LenField{off, w.pos - off, kind, unit, per})
+	if v > 0 && per > 0 {
+		a := int64(1) << 62
+		if v < a/per {
+			a = v * per
+		}
+		if a > w.alloc {
+			w.alloc = a
+		}
+	}
 	if v < 0 {
 		w.neg = true
 		w.ok = false
@@ -199,6 +239,14 @@ func (w *c08Cur) length(kind string, unit int, bytesPer int64) int64 {
 	} else if v > w.elems {
 		w.elems = v
 	}
+	return v
+}
+
+// count: a count prefix for which the unchanged code allocates nothing up front (entries are appended one by one)
+func (w *c08Cur) count(kind string) int64 {
+	b := w.bytes
+	v := w.length(kind, 0, 0)
+	w.bytes = b
 	return v
 }
 
@@ -241,7 +289,12 @@ func (w *c08Cur) nbtPayload(tag byte, depth int) {
 		w.skip(int(8 * n))
 	case 9:
 		t := byte(w.u8())
-		n := w.length("be32", 0, 16)
+		var n int64
+		if w.listPer == 0 {
+			n = w.count("be32")
+		} else {
+			n = w.length("be32", 0, w.listPer)
+		}
 		for i := int64(0); i < n && w.ok; i++ {
 			if t == 0 {
 				break // a list of End consumes nothing: the count alone decides (capped by elems)
@@ -271,6 +324,37 @@ func (w *c08Cur) nbtNet() {
 }
 
 func (w *c08Cur) str() { w.skip(int(w.length("varint", 1, 1))) }
+
+// c08ElemSize: bytes per element of the Go slice an `ary` type is decoded into (what MakeSlice allocates per declared
+// element), read off the real destination by reflection; at least 2 so that the count is treated as an element count
+var c08ElemSizes sync.Map
+
+func c08ElemSize(t *Ty) int64 {
+	key := t.String()
+	if v, ok := c08ElemSizes.Load(key); ok {
+		return v.(int64)
+	}
+	size := int64(32)
+	guard(func() {
+		inst := build(t, zeroVal(t), 0, 0)
+		v := reflect.ValueOf(inst.dec)
+		for v.Kind() == reflect.Ptr || v.Kind() == reflect.Interface {
+			v = v.Elem()
+		}
+		f := v.FieldByName("Ary")
+		for f.Kind() == reflect.Ptr || f.Kind() == reflect.Interface {
+			f = f.Elem()
+		}
+		if f.Kind() == reflect.Slice {
+			size = int64(f.Type().Elem().Size())
+		}
+	})
+	if size < 2 {
+		size = 2
+	}
+	c08ElemSizes.Store(key, size)
+	return size
+}
 
 // ty walks a C06 field type
 func (w *c08Cur) ty(t *Ty) {
@@ -312,7 +396,7 @@ func (w *c08Cur) ty(t *Ty) {
 		w.ty(t.Args[0])
 	case "opt0":
 	case "ary":
-		n := w.length(t.Len, 0, 32)
+		n := w.length(t.Len, 0, c08ElemSize(t))
 		for i := int64(0); i < n && w.ok; i++ {
 			before := w.pos
 			w.ty(t.Args[0])
@@ -347,6 +431,8 @@ type c08Decoder struct {
 	nRandQ, nRandT        int  // random inputs per params
 	// other: cases produced by another property's generator (frame, cmd, dynbt)
 	other func(c *Ctx)
+	// more (optional): further cases of this entry and parameter string, produced after the random inputs
+	more func(c *Ctx, d *c08Decoder, params string)
 	// opFor (optional): the op of ONE case (c08.dec: compared with the model; c08.raw: oracle only); nil = always d.op
 	opFor func(c *Ctx, params string, in []byte) string
 }
@@ -601,6 +687,9 @@ func c08Stream(c *Ctx, d *c08Decoder, pi int, params string) {
 			}
 			c08Emit(c, d, params, in)
 		}
+		if d.more != nil {
+			d.more(c, d, params)
+		}
 	}
 }
 
@@ -847,10 +936,9 @@ func c08RunRegistryDyn(params string, in []byte) string {
 	return fmt.Sprintf("ok n=%d used=%d v=%s", n, used, v)
 }
 
-func c08WalkRegistry(_ string, in []byte) *c08Cur {
-	w := newCur(in)
-	n := w.length("varint", 0, 1<<10) // entries are appended one by one: the count allocates nothing
-	w.elems = 0
+func c08WalkRegistry(params string, in []byte) *c08Cur {
+	w := newCurList(in, c08NbtListPer(params))
+	n := w.count("varint") // entries are appended one by one: the count allocates nothing
 	for i := int64(0); i < n && w.ok; i++ {
 		w.str()
 		if w.u8() != 0 {
@@ -927,8 +1015,7 @@ func c08RunTags(params string, in []byte) string {
 
 func c08WalkTags(_ string, in []byte) *c08Cur {
 	w := newCur(in)
-	n := w.length("varint", 0, 1<<10)
-	w.elems = 0
+	n := w.count("varint")
 	for i := int64(0); i < n && w.ok; i++ {
 		w.str()
 		k := w.length("varint", 1, 8)
@@ -1273,7 +1360,7 @@ func c08RunBlockEntity(_ string, in []byte) string {
 }
 
 func c08WalkBlockEntity(_ string, in []byte) *c08Cur {
-	w := newCur(in)
+	w := newCurList(in, 0) // nbt.RawMessage: the value is skipped, nothing is allocated per element
 	w.blockEntity()
 	return w
 }
@@ -1339,8 +1426,8 @@ func c08ValidChatType(c *Ctx, _ string, n int) [][]byte {
 	return out
 }
 
-func c08WalkNBT(_ string, in []byte) *c08Cur {
-	w := newCur(in)
+func c08WalkNBT(params string, in []byte) *c08Cur {
+	w := newCurList(in, c08NbtListPer(params))
 	w.nbtNet()
 	return w
 }
@@ -1759,7 +1846,7 @@ func c08InitRegistry() {
 	ext("c08.dec", "blockentity", one("-"), c08ValidBlockEntity, c08WalkBlockEntity, c08RunBlockEntity, 2, 40, 1500).exhQuick = 1
 	ext("c08.dec", "chat.nbt", one("-"), c08ValidChatNBT, c08WalkNBT, c08RunChatNBT, 2, 80, 3000).exhQuick = 1
 	ext("c08.dec", "chat.type", one("-"), c08ValidChatType, c08WalkChatType, c08RunChatType, 2, 40, 1500).exhQuick = 1
-	ext("c08.dec", "chat.json", one("-"), c08ValidChatJSON, c08WalkString, c08RunChatJSON, 2, 30, 1500)
+	ext("c08.dec", "chat.json", one("-"), c08ValidChatJSON, c08WalkString, c08RunChatJSON, 2, 30, 1500).more = c08ChatJSONMore
 	ext("c08.dec", "nbt", c08NbtParams, c08ValidNBTStruct, c08WalkNBT, c08RunNBTStruct, 2, 40, 2000).exhFirst = 1
 	ext("c08.dec", "registry", c08RegParams, c08ValidRegistry, c08WalkRegistry, c08RunRegistryRaw, 2, 28, 1000).exhFirst = 1
 }
@@ -1779,6 +1866,7 @@ func c08Frames(c *Ctx) {
 		c07Malformed(&q)
 	}
 	c08FramesPaddedID(&q)
+	c08FramesBig(&q)
 	c.count = q.count
 }
 
@@ -2126,6 +2214,8 @@ func genC08(c *Ctx) {
 	for _, k := range order {
 		fmt.Fprintf(os.Stderr, "c08: %-18s %8d cases %6.1fs cpu\n", k, sums[k].n, sums[k].dur.Seconds())
 	}
+	// length prefixes with the high bits set (c08r5.go): one case at a time, after the pool
+	c08Big(c)
 	// the known finding C08.ary-zero-width-spin: 2^31-1 zero-width elements declared in five bytes
 	c08Spin(c)
 	fmt.Fprintf(os.Stderr, "c08: %d cases skipped by the allocation cap, %d small inputs declaring more than 300 elements not enumerated\n",
@@ -2171,6 +2261,14 @@ func replayC08(c *Ctx, op string, args []string) bool {
 		for _, d := range c08Decoders {
 			if d.name == args[0] && (d.op == op || d.opFor != nil) {
 				c08EmitAs(c, d, args[1], unhx(args[2]), op)
+				return true
+			}
+		}
+		return false
+	case "c08.big":
+		for _, d := range c08Decoders {
+			if d.name == args[0] && d.walk != nil {
+				c08BigEmit(c, d, args[1], unhx(args[2]), true)
 				return true
 			}
 		}
